@@ -216,6 +216,77 @@ func init() {
 		"(*log.Logger).Println": noop,
 		"(*log.Logger).Print":   noop,
 		"github.com/vipnode/vipnode/v2/internal/pretty.Abbrev": noop,
+		// ---- encoding/json streams (C17): see /verif/assumed/stdlib.spec for the ghost fields
+		"encoding/json.NewDecoder": func(vc *VC, st *State, c *ssa.CallCommon, args []Value, pos string) Value {
+			r := vc.term(st, args[0], "reader")
+			d := vc.newRef(st, "decoder")
+			vc.gfSet(st, "dsrc", d, ifaceVal(r))
+			vc.gfSet(st, "dstart", d, vc.gfGet(st, "rpos", ifaceVal(r)))
+			vc.gfSet(st, "dcons", d, IntLit(0))
+			vc.note("json.Decoder is modelled by stream offsets: it may read any number of bytes ahead of the value it returns and keeps them in its own buffer")
+			return d
+		},
+		"(*encoding/json.Decoder).Decode": func(vc *VC, st *State, c *ssa.CallCommon, args []Value, pos string) Value {
+			d := vc.term(st, args[0], "decoder")
+			vc.safetyCheck(st, "nil", Not(Eq(d, IntLit(0))), 0)
+			src := vc.gfGet(st, "dsrc", d)
+			start := Bin(sortInt, "+", vc.gfGet(st, "dstart", d), vc.gfGet(st, "dcons", d))
+			// library invariant: a decoder never turned more bytes into values than it read
+			st.assume(Bin(sortBool, "<=", start, vc.gfGet(st, "rpos", src)))
+			k := vc.fresh("readmore", sortInt)
+			st.assume(Bin(sortBool, ">=", k, IntLit(0)))
+			vc.gfSet(st, "rpos", src, Bin(sortInt, "+", vc.gfGet(st, "rpos", src), k))
+			err := vc.freshValue(st, types.Universe.Lookup("error").Type(), "decerr").(*Term)
+			ln := vc.fresh("vallen", sortInt)
+			st.assume(Bin(sortBool, ">", ln, IntLit(0)))
+			ok := Eq(ifaceTag(err), IntLit(0))
+			st.assume(Implies(ok, Bin(sortBool, "<=", Bin(sortInt, "+", start, ln), vc.gfGet(st, "rpos", src))))
+			vc.gfSet(st, "dcons", d, Ite(ok, Bin(sortInt, "+", vc.gfGet(st, "dcons", d), ln), vc.gfGet(st, "dcons", d)))
+			// the target object is overwritten with an arbitrary value of its type, and tagged with where it came from
+			v := vc.term(st, args[1], "target")
+			target := ifaceVal(v)
+			if mi, isMI := c.Args[1].(*ssa.MakeInterface); isMI {
+				if pt, isPtr := mi.X.Type().Underlying().(*types.Pointer); isPtr {
+					p := vc.asPtr(target, pt.Elem())
+					fv := vc.fresh("decoded", vc.targetSort(p))
+					vc.typeFacts(st, fv, pt.Elem())
+					vc.store(st, p, fv)
+				}
+			}
+			vc.gfSet(st, "msgstart", target, start)
+			vc.gfSet(st, "msglen", target, ln)
+			return err
+		},
+		// ---- sort: the elements of the slice are permuted in place
+		"sort.Sort": func(vc *VC, st *State, c *ssa.CallCommon, args []Value, pos string) Value {
+			mi, ok := c.Args[0].(*ssa.MakeInterface)
+			if !ok {
+				refuse("sort.Sort on a value of unknown dynamic type")
+			}
+			sl, ok := mi.X.Type().Underlying().(*types.Slice)
+			if !ok {
+				refuse("sort.Sort on a non-slice (%s)", mi.X.Type())
+			}
+			T := vc.eng.st
+			es := T.SortOf(sl.Elem())
+			as := T.ArrayOf(sortInt, es)
+			s := vc.unbox(st, vc.term(st, args[0], "sort"), mi.X.Type(), sortSlice)
+			n, h := vc.arrHeap(st, es)
+			oldArr := Select(h, sliceArr(s), as)
+			newArr := vc.fresh("sorted", as)
+			lo := sliceOff(s)
+			hi := Bin(sortInt, "+", sliceOff(s), sliceLen(s))
+			q := "sp" + itoa(vc.nfresh)
+			r := "sq" + itoa(vc.nfresh)
+			vc.nfresh++
+			// every element after sorting is one of the elements before (and vice versa); outside the slice nothing changes
+			st.assume(T_(sortBool, "(forall (("+q+" Int)) (! (=> (and (<= "+lo.S+" "+q+") (< "+q+" "+hi.S+")) (exists (("+r+" Int)) (and (<= "+lo.S+" "+r+") (< "+r+" "+hi.S+") (= (select "+newArr.S+" "+q+") (select "+oldArr.S+" "+r+"))))) :pattern ((select "+newArr.S+" "+q+"))))"))
+			st.assume(T_(sortBool, "(forall (("+q+" Int)) (! (=> (and (<= "+lo.S+" "+q+") (< "+q+" "+hi.S+")) (exists (("+r+" Int)) (and (<= "+lo.S+" "+r+") (< "+r+" "+hi.S+") (= (select "+oldArr.S+" "+q+") (select "+newArr.S+" "+r+"))))) :pattern ((select "+oldArr.S+" "+q+"))))"))
+			st.assume(T_(sortBool, "(forall (("+q+" Int)) (! (=> (or (< "+q+" "+lo.S+") (>= "+q+" "+hi.S+")) (= (select "+newArr.S+" "+q+") (select "+oldArr.S+" "+q+"))) :pattern ((select "+newArr.S+" "+q+"))))"))
+			vc.setHeap(st, n, Store(vc.heap(st, n, h.Sort), sliceArr(s), newArr))
+			vc.note("sort.Sort permutes the slice in place (ordering itself is not modelled)")
+			return nil
+		},
 		// ---- strings
 		"strings.HasPrefix": func(vc *VC, st *State, c *ssa.CallCommon, args []Value, pos string) Value {
 			s, p := vc.term(st, args[0], "s"), vc.term(st, args[1], "p")
@@ -264,10 +335,17 @@ func init() {
 			return App(sortIface, "ctxval", vc.term(st, args[0], "ctx"), vc.term(st, args[1], "key"))
 		},
 		"context.Context.Err": func(vc *VC, st *State, c *ssa.CallCommon, args []Value, pos string) Value {
-			return vc.freshValue(st, types.Universe.Lookup("error").Type(), "ctxerr")
+			// non-nil once the Done channel has been seen closed
+			ctx := vc.term(st, args[0], "ctx")
+			vc.declareFun("ctxdonech", []*Sort{sortIface}, sortInt)
+			vc.declareFun("chclosed", []*Sort{sortInt}, sortBool)
+			e := vc.freshValue(st, types.Universe.Lookup("error").Type(), "ctxerr").(*Term)
+			st.assume(Implies(App(sortBool, "chclosed", App(sortInt, "ctxdonech", ctx)), Not(Eq(ifaceTag(e), IntLit(0)))))
+			return e
 		},
 		"context.Context.Done": func(vc *VC, st *State, c *ssa.CallCommon, args []Value, pos string) Value {
-			return vc.fresh("ctxdone", sortInt)
+			vc.declareFun("ctxdonech", []*Sort{sortIface}, sortInt)
+			return App(sortInt, "ctxdonech", vc.term(st, args[0], "ctx"))
 		},
 	}
 }
@@ -309,4 +387,21 @@ func containsPercent(s string) bool {
 		}
 	}
 	return false
+}
+
+// gfGet / gfSet: ghost fields (declared in spec files) read and written by the models.
+func (vc *VC) gfHeap(st *State, name string) *Term {
+	g, ok := vc.eng.db.Ghosts[name]
+	if !ok || !g.Field {
+		refuse("ghost field %s is not declared", name)
+	}
+	return vc.ghostFieldHeap(st, g, sortInt)
+}
+
+func (vc *VC) gfGet(st *State, name string, ref *Term) *Term {
+	return Select(vc.gfHeap(st, name), ref, sortInt)
+}
+
+func (vc *VC) gfSet(st *State, name string, ref, v *Term) {
+	vc.setHeap(st, "GF_"+name, Store(vc.gfHeap(st, name), ref, v))
 }
